@@ -68,6 +68,11 @@ type vpC07World struct {
 }
 
 func vpC07Build(tb vpTB, base string, transit bool, echo *harn.Listener) *vpC07World {
+	return vpC07BuildOpt(tb, base, transit, echo, false)
+}
+
+// vpC07BuildOpt: socks also enables the ingress' SOCKS5 server (UDP associations).
+func vpC07BuildOpt(tb vpTB, base string, transit bool, echo *harn.Listener, socks bool) *vpC07World {
 	w := &vpC07World{m: vpNewMesh(base), log: &vpTapLog{keep: func(vpSeen) bool { return false }}, echo: echo, transit: transit}
 	w.ftDir = filepath.Join(base, "ft")
 	os.MkdirAll(w.ftDir, 0o755)
@@ -75,8 +80,11 @@ func vpC07Build(tb vpTB, base string, transit bool, echo *harn.Listener) *vpC07W
 	w.a = w.m.add(tb, "A", func(c *config.Config) {
 		c.FileTransfer.Enabled = true
 		c.FileTransfer.AllowedPaths = []string{w.ftDir}
+		if socks {
+			vpIngressSocks(c)
+		}
 	})
-	w.x = w.m.add(tb, "X", vpExitFull(map[string]string{"echo": fmt.Sprintf("127.0.0.1:%d", echo.Port)}, w.ftDir))
+	w.x = w.m.add(tb, "X", vpExitFull(map[string]string{"echo": fmt.Sprintf("127.0.0.1:%d", echo.Port), "echo6": fmt.Sprintf("[::1]:%d", echo.Port)}, w.ftDir))
 	if transit {
 		w.m.add(tb, "T", nil)
 		w.m.link(tb, "A", "T")
@@ -217,7 +225,16 @@ func TestVP_C07_Paths(t *testing.T) {
 			big = true
 		}
 		seed := uint64(serial)*7919 + 13
+		// the application's read-buffer sizes on the tunnel conn (tcp and forward): small
+		// buffers make one received frame span several reads
+		var reads []int
+		if (kind == "tcp" || kind == "forward") && rapid.Bool().Draw(rt, "ownReadBuffers") {
+			reads = rapid.SliceOfN(rapid.OneOf(rapid.IntRange(1, 64), rapid.IntRange(65, 4096), rapid.IntRange(4097, 20000), rapid.IntRange(20001, 100000)), 1, 5).Draw(rt, "readBuffers")
+		}
 		canon := fmt.Sprintf("%s transit=%v sizes=%v", kind, transit, sizes)
+		if reads != nil {
+			canon += fmt.Sprintf(" reads=%v", reads)
+		}
 		vp.LogCase("TestVP_C07_Paths", canon)
 		w := vpC07Build(rt, fmt.Sprintf("%s/m%d", base, serial), transit, echo)
 		defer w.m.stop()
@@ -229,7 +246,7 @@ func TestVP_C07_Paths(t *testing.T) {
 			if err != nil {
 				rt.Fatalf("harness: dial through the mesh failed: %v", err)
 			}
-			got, opErr = vpEchoExchange(c, seed, sizes, 30*time.Second)
+			got, opErr = vpEchoExchangeR(c, seed, sizes, reads, 30*time.Second)
 			c.Close()
 		case "forward":
 			ctx, cancel := context.WithTimeout(context.Background(), 10*time.Second)
@@ -238,7 +255,7 @@ func TestVP_C07_Paths(t *testing.T) {
 			if err != nil {
 				rt.Fatalf("harness: forward dial failed: %v", err)
 			}
-			got, opErr = vpEchoExchange(c, seed, sizes, 30*time.Second)
+			got, opErr = vpEchoExchangeR(c, seed, sizes, reads, 30*time.Second)
 			c.Close()
 		case "shell":
 			got, opErr = vpC07Shell(w, seed, sizes, 30*time.Second)
@@ -268,7 +285,7 @@ func TestVP_C07_Paths(t *testing.T) {
 			got, _ = os.ReadFile(dst)
 		}
 		_, oversize := w.log.snapshot()
-		st.Case(canon, big, kind, fmt.Sprintf("transit-%v", transit))
+		st.Case(canon, big, kind, fmt.Sprintf("transit-%v", transit), fmt.Sprintf("own-read-buffers-%v", reads != nil))
 		if len(oversize) > 0 {
 			rt.Fatalf("VPFAIL C07 frame over the 16384-byte payload limit on the wire: %s\n  case: %s", oversize[0], canon)
 		}
